@@ -273,6 +273,10 @@ func genC16(r *rt.Rand, tier string, idx int) *world.Scenario {
 			if r.Chance(0.4) {
 				a, b = prefix+"/a", prefix+"/b"
 			}
+			if r.Chance(0.1) {
+				// etcd's way of writing "exactly this key" as a range
+				a, b = k, k+"\x00"
+			}
 			cl.Ops = append(cl.Ops, world.Op{K: "erange", Key: a, End: b, Limit: int64(r.Intn(4))})
 		case 6:
 			cl.Ops = append(cl.Ops, world.Op{K: "erange", Key: prefix + "/", End: prefix + "0", API: "count"})
@@ -582,8 +586,13 @@ func c16Custom(t *testing.T, sc *world.Scenario, out *Outcome) {
 				for _, k := range want {
 					wantKVs = append(wantKVs, etcdOut{k, m.kv[k].val, m.kv[k].mod})
 				}
+				// a range end below the key separator: "[k, k+NUL)" is etcd's spelling of the single key k
+				endSig := ""
+				if strings.HasPrefix(op.End, op.Key) && len(op.End) > len(op.Key) && op.End[len(op.Key)] < '$' {
+					endSig = " range-end=key+byte-below-separator"
+				}
 				if !sameEtcdKVs(resp.Kvs, wantKVs) {
-					out.violate(P, "range-result", "range-result", "Range(%s,%s,limit %d) returned %s, etcd semantics prescribe %v", op.Key, op.End, op.Limit, fmtEtcdKVs(resp.Kvs), wantKVs)
+					out.violate(P, "range-result", "range-result"+endSig, "Range(%q,%q,limit %d) returned %s, etcd semantics prescribe %v", op.Key, op.End, op.Limit, fmtEtcdKVs(resp.Kvs), wantKVs)
 				}
 				if resp.More != more {
 					out.violate(P, "range-more", "range-more", "Range(%s,%s,limit %d) More=%v, etcd semantics prescribe %v", op.Key, op.End, op.Limit, resp.More, more)
@@ -593,6 +602,7 @@ func c16Custom(t *testing.T, sc *world.Scenario, out *Outcome) {
 					if more {
 						sig += " limited-range"
 					}
+					sig += endSig
 					out.violate(P, "range-count", sig, "Range(%s,%s,limit %d) Count=%d, etcd semantics prescribe the total %d", op.Key, op.End, op.Limit, resp.Count, total)
 				}
 				if more {
